@@ -88,3 +88,30 @@ let inject (p : profile) (t : Stdlib.String.t array) : Stdlib.String.t =
       | Ok l -> "ok " ^ wnals l
       | Err -> "err"
       | Panic s -> "panic " ^ string_of_n s)
+
+let mopts_of_string (s : Stdlib.String.t) : mopts =
+  let kv = Stdlib.List.filter_map (fun x -> match split '=' x with [ k; v ] -> Some (k, v) | _ -> None) (split ',' s) in
+  let g k = try Stdlib.List.assoc k kv with Not_found -> "0" in
+  { mo_no_add_aud = b01 (g "noaud"); mo_eos_before_el = b01 (g "eosfirst"); mo_discard = b01 (g "discard");
+    mo_annexb = b01 (g "annexb"); mo_drop = b01 (g "drop");
+    mo_mode = (match Stdlib.List.assoc_opt "m" kv with None | Some "-" -> None | Some v -> Some (n_of_string v));
+    mo_crop = b01 (g "crop") }
+
+(* mux <opts> <bl nals> <el batches> *)
+let mux_op (p : profile) (t : Stdlib.String.t array) : Stdlib.String.t =
+  let o = mopts_of_string t.(1) in
+  let bl = Stdlib.List.concat (batches_of_string t.(2)) in
+  let el = batches_of_string t.(3) in
+  match mux p o bl el with
+  | Ok (l, e) -> "ok " ^ (if e then "mismatch " else "match ") ^ wnals l
+  | Err -> "err"
+  | Panic s -> "panic " ^ string_of_n s
+
+let muxspec_op (p : profile) (t : Stdlib.String.t array) : Stdlib.String.t =
+  let o = mopts_of_string t.(1) in
+  let bl = Stdlib.List.concat (batches_of_string t.(2)) in
+  let el = Stdlib.List.concat (batches_of_string t.(3)) in
+  match mux_spec p o bl el with
+  | Ok l -> "ok " ^ (if l = [] then "-" else Stdlib.String.concat "," (Stdlib.List.map hex_of_bytes l))
+  | Err -> "err"
+  | Panic s -> "panic " ^ string_of_n s
